@@ -76,6 +76,16 @@ def cases(tier, seed):
                 cs.append({'scen': 'riem_gradient', 's': dict(s, before='gradient'), 'opts': AD})
                 if th or not pats:
                     cs.append({'scen': 'riem_gradient', 's': dict(s, before='projection'), 'opts': AD})
+    # base points whose cores are views: transposed operators (permuted strides) and strided slices; order 3 so that an interior core exists
+    for N, M, via in [([2, 2, 1], [1, 2, 2], 'transposed'), ([2, 2], [2, 1], 'transposed'), ([2, 2, 2], None, 'sliced')] + ([([2, 2, 2], [2, 2, 1], 'transposed')] if th else []):
+        d = len(N)
+        base = {'N': N, 'Rx': [1] * (d + 1), 'via': via}
+        if M:
+            base['M'] = M
+        for fk in ('quadratic', 'linear'):
+            cs.append({'scen': 'riem_gradient', 's': dict(base, f=fk), 'opts': AD})
+        for what in ('fixes_base_point', 'selfadjoint'):
+            cs.append({'scen': 'riem_projection', 's': dict(base, Rz=[1] * (d + 1), Rw=[1] * (d + 1), what=what)})
     return cs
 
 
